@@ -1,4 +1,6 @@
 import TaffyVerif.Drv.C02
+import TaffyVerif.Drv.C08
+import TaffyVerif.Drv.C03
 import TaffyVerif.Drv.C14
 import TaffyVerif.Drv.C13
 import TaffyVerif.Drv.C18
@@ -6,6 +8,8 @@ import TaffyVerif.Drv.C15
 
 def handlers : List (String × Handler) := [
   ("C02", DrvC02.handler),
+  ("C08", DrvC08.handler),
+  ("C03", DrvC03.handler),
   ("C14", DrvC14.handler),
   ("C13", DrvC13.handler),
   ("C18", DrvC18.handler),
